@@ -57,6 +57,10 @@ package mqtt
 //@ ensures[C06] hastype(err, *BigMessage) ==> unbox(err, *BigMessage).Size == vdec(rx_stream(c.bufr), old(rx_pos(c.bufr)) + 1, rx_pos(c.bufr) - old(rx_pos(c.bufr)) - 1)
 //@ ensures[C06,id=big_full_buffer] hastype(err, *BigMessage) ==> len(c.peek) == rx_size(c.bufr) && forall(k, 0, len(c.peek), c.peek[k] == rx_stream(c.bufr)[rx_pos(c.bufr) + k])
 
+// Client invariant (the part the write path relies on): the token channels
+// exist, are one-slot, and a closed write semaphore is empty.
+//@ pred writable(c): c.writeSem != nil && cap(c.writeSem) == 1 && c.onlineSig != nil && !closed(c.onlineSig) && cap(c.onlineSig) == 1 && c.ctx != nil && (closed(c.writeSem) ==> len(c.writeSem) == 0)
+
 // Content invariants of the token channels: every sender is obliged to them,
 // every receiver may rely on them.
 //@ chaninv mqtt.Client.writeSem(v): v != nil
@@ -150,6 +154,8 @@ package mqtt
 
 // onPUBREC: Save(PUBREL) first, then count, then write.
 //@ func mqtt.(*Client).onPUBREC -> err
+//@ reveal flatlen_ flatat_
+//@ requires writable(c)
 //@ requires c.persistence != nil && c.exactlyOnce.queue != nil
 //@ requires c.Completed <= c.Received && c.Received - c.Completed <= 16384
 //@ requires ref(c.peek) != ref(c.pendingAck) || ref(c.peek) == 0
@@ -165,6 +171,7 @@ package mqtt
 
 // onPUBREL: Delete(marker) first, PUBCOMP only after; also for unknown identifiers.
 //@ func mqtt.(*Client).onPUBREL -> err
+//@ requires writable(c)
 //@ requires c.persistence != nil
 //@ requires ref(c.peek) != ref(c.pendingAck) || ref(c.peek) == 0
 //@ ensures[C04,C13] err == nil ==> len(c.peek) == 2 && c.peek[0]*256 + c.peek[1] != 0 && !st_has(c.persistence, 65536 + c.peek[0]*256 + c.peek[1]) && len(c.pendingAck) == 0
